@@ -25,7 +25,7 @@ for p in props:
         na.append({"property_id": pid, "reason": "check not built yet (work in progress; see DESIGN.md section 2 for the planned monitor)"})
 man = {
     "version": 1,
-    "setup_cmd": "./check build fast checked asan",
+    "setup_cmd": "./check build fast checked asan miri",
     "hooks": {
         "guard": "verif (cargo feature of reactive-mutiny, off by default)",
         "enable": "the harness crate /verif/harness depends on reactive-mutiny by path with features = [\"verif\"]; `./check` rebuilds it from /repo's working tree on every invocation",
